@@ -381,6 +381,13 @@ func (st *State) heap(key string, s Sort) *Term {
 	}
 	h := Var(key+"@0", s)
 	st.heaps[key] = h
+	// type safety of the initial heap: every reference stored in memory that exists at function
+	// entry points to memory that exists at function entry (it cannot be a later allocation)
+	if (strings.HasSuffix(key, ".$ref") || strings.HasSuffix(key, ".$mref")) && st.alloc0 != nil && s == SHInt {
+		r, i := Var("r!ht", SInt), Var("i!ht", SInt)
+		cell := Select(Select(h, r), i)
+		st.assume(Forall([]*Term{r, i}, And(Le(IntLit(0), cell), Lt(cell, st.alloc0))))
+	}
 	return h
 }
 
